@@ -35,22 +35,29 @@ def vToJson : V → Json
 
 partial def eOfJson (j : Json) : Except String E := do
   if let .ok k := j.getObjValAs? Nat "arg" then return .arg k
+  if let .ok v := j.getObjVal? "k" then return .const (← vOfJson v)
   let f ← j.getObjValAs? String "f"
   let a ← j.getObjValAs? (Array Json) "a"
   return .app f (← a.toList.mapM eOfJson)
 
 /-- engine model: like `Spec.Fn.eval`, but a function with a deviation entry computes what the engine computes;
-    also returns the ids of the entries that were consulted and changed the value -/
-partial def evalEngine (c : Ctx) (row : List V) : E → Option (EOut × List String)
+    also returns the ids of the entries that were consulted and changed the value.  `row0` is row 0 of the batch:
+    the arms that read a "constant" argument from row 0 see the value the argument EXPRESSION has there. -/
+partial def evalEngine (nrows : Nat) (lit : List Bool) (row0 row : List V) : E → Option (EOut × List String)
   | .arg j => (row[j]?).map (fun v => (.val v, []))
+  | .const v => some (.val v, [])
   | .app f as => do
-    let rs ← as.mapM (evalEngine c row)
+    let rs ← as.mapM (evalEngine nrows lit row0 row)
     let ids := (rs.map (·.2)).flatten
     if rs.any (fun r => r.1 == .panic) then return (.panic, ids)
     if rs.any (fun r => r.1 == .err) then return (.err, ids)
     let vs := rs.filterMap (fun r => match r.1 with | .val v => some v | _ => none)
+    -- the same argument expressions evaluated on row 0 (NULL if they fail there)
+    let vs0 := as.map (fun a => match evalEngine nrows lit row0 row0 a with | some (.val v, _) => v | _ => .null)
+    let flags := as.map (fun a => match a with | .const _ => true | .arg j => lit.getD j false | .app _ _ => false)
+    let ctx : Ctx := { nrows := nrows, lit := flags, row0 := vs0 }
     let spec := call f vs
-    match devCall c f vs with
+    match devCall ctx f vs with
     | some (id, e) => if spec.map ofOut == some e then return (e, ids) else return (e, id :: ids)
     | none => match spec with
       | some o => return (ofOut o, ids)
@@ -102,43 +109,64 @@ def handler : Driver.Handler := fun c i => do
   let rows ← rowsJ.toList.mapM (fun r => do (← r.getArr?).toList.mapM vOfJson)
   let lit := ((c.getObjValAs? (Array Json) "lit").toOption.getD #[]).toList.map (fun j => j.getBool?.toOption.getD false)
   let law := (c.getObjValAs? String "law").toOption
-  let ctx : Ctx := { nrows := rows.length, lit := lit, row0 := rows.headD [] }
+  let row0 := rows.headD []
   let imp := implOfJson i
   match imp with
   | .bad m => throw s!"bad impl: {m}"
   | _ => pure ()
+  let e2 : Option E ← match c.getObjVal? "e2" with
+    | .ok j => if j.isNull then pure none else (do pure (some (← eOfJson j)))
+    | .error _ => pure none
+  let imp2 : Option Impl := match i.getObjVal? "second" with | .ok j => some (implOfJson j) | .error _ => none
   -- documented values
   let specRows := rows.map (fun r => eval r e)
-  if specRows.any Option.isNone then
+  let spec2Rows := match e2 with | some x => rows.map (fun r => eval r x) | none => []
+  if specRows.any Option.isNone || spec2Rows.any Option.isNone then
     -- outside the claim (excluded input class): nothing is judged, the case does not count
     return { model := Json.str "unclaimed", k := true, oracle := none, nt := false, tags := [tag ++ ":unclaimed"] }
   let spec := combine (specRows.filterMap (fun o => o.map ofOut))
-  let engRows := rows.map (fun r => evalEngine ctx r e)
+  let engRows := rows.map (fun r => evalEngine rows.length lit row0 r e)
   let eng : EOut ⊕ List V := combine (engRows.filterMap (fun o => o.map (·.1)))
-  let ids := ((engRows.filterMap (fun o => o.map (·.2))).flatten).eraseDups
+  let eng2Rows := match e2 with | some x => rows.map (fun r => evalEngine rows.length lit row0 r x) | none => []
+  let eng2 : EOut ⊕ List V := combine (eng2Rows.filterMap (fun o => o.map (·.1)))
+  let ids := ((((engRows ++ eng2Rows).filterMap (fun o => o.map (·.2))).flatten)).eraseDups
   let specOk := agrees spec imp
-  let kOk := agrees eng imp
-  -- law on the engine's own output (independent of the model): value = argument 0
+  let kOk := agrees eng imp && (match e2, imp2 with | some _, some i2 => agrees eng2 i2 | some _, none => false | none, _ => true)
+  -- laws on the engine's own output (independent of the model)
   let lawFail : Option String :=
-    match law, imp with
-    | some "id0", .rows ws =>
-      let a0 := rows.map (fun r => r.headD .null)
-      if a0.length == ws.length && (a0.zip ws).all (fun p => vEq p.1 p.2) then none else some "round trip / involution does not return its argument"
-    | some "id0", .err => some "round trip / involution raised"
-    | some "id0", .panic => some "round trip / involution panicked"
-    | _, _ => none
+    match law with
+    | some "eq" =>
+      (match imp, imp2 with
+       | .rows a, some (.rows b) => if a.length == b.length && (a.zip b).all (fun p => vEq p.1 p.2) then none else some "the two sides of the law differ on the engine"
+       | .err, some .err => none
+       | _, _ => some "the two sides of the law end differently on the engine (value / error / panic)")
+    | some l =>
+      if l.startsWith "id" then
+        let k := (l.drop 2).toNat!
+        (match imp with
+         | .rows ws =>
+           -- rows where another argument is NULL are not judged (the law is about non-NULL parameters)
+           let judged := (rows.zip ws).filter (fun p => !((p.1.zipIdx).any (fun q => q.2 != k && q.1.isNull)))
+           if rows.length == ws.length && judged.all (fun p => vEq (p.1.getD k .null) p.2) then none else some "round trip / involution does not return its argument"
+         | .err => some "round trip / involution raised"
+         | .panic => some "round trip / involution panicked"
+         | .bad _ => some "bad impl")
+      else none
+    | none => none
   let oracle : Option String :=
     match lawFail with
     | some w => some w
-    | none => if specOk then none else some s!"{tag}: result differs from the documented value"
+    | none => if law.isSome || specOk then none else some s!"{tag}: result differs from the documented value"
+  -- a law case whose engine values differ from the documented ones without breaking the law is a K matter only
+  let kFinal := kOk
   let attr : Option String :=
-    if oracle.isSome && kOk then (match ids with | [id] => some id | _ => none) else none
+    if (oracle.isSome || !specOk) && kOk then (match ids with | [id] => some id | _ => none) else none
   let modelJ := match spec with
     | .inl o => eoutToJson o
     | .inr vs => Json.arr (vs.map vToJson).toArray
   let nt := match spec with | .inr vs => vs.any (fun v => !v.isNull) | _ => true
   let mode := if lit.all id then "lit" else if lit.any id then "mixed" else "col"
   let outTag := match spec with | .inl _ => "raises" | .inr vs => if vs.any V.isNull then "null" else "value"
-  pure { model := modelJ, k := kOk, oracle := oracle, nt := nt, tags := [tag, "mode:" ++ mode, "out:" ++ outTag], attr := attr }
+  pure { model := modelJ, k := kFinal, oracle := oracle, nt := nt, tags := [tag, "mode:" ++ mode, "out:" ++ outTag], attr := attr }
 
 end Driver.Fn
